@@ -30,7 +30,7 @@ EXTRA = METRICS + ["ENERGY|LATENCY|ENERGY_DELAY_PRODUCT"]
 
 @st.composite
 def cases(draw):
-    spec = draw(MM.small_specs())
+    spec = draw(MM.small_specs(shapes=("matmul", "chain2", "chain2", "matvec", "elementwise2")))
     return {"spec": spec, "nodetail": draw(st.sampled_from(EXTRA))}
 
 
@@ -111,7 +111,7 @@ def shards(tier, seed):
 
 
 def run_shard(shard, col):
-    drive(cases(), check, n=shard["n"], seed=hash32(shard["seed"], "C17", shard["k"]), col=col, shrink=False)
+    MM.drive_unbiased(cases(), check, n=shard["n"], seed=hash32(shard["seed"], "C17", shard["k"]), col=col)
 
 
 def replay(desc, col):
